@@ -256,7 +256,7 @@ def body_bytes(kind, idx):
 
 
 SHAPES = ('canon', 'nospace', 'lf', 'folded', 'empty', 'long', 'wide', 'noreason', 'foldedblank', 'nocolon', 'hibyte', 'huge', 'tabfold',
-          'ctnosemi', 'ctspace', 'ctodd', 'line4098', 'line4097', 'line8194')
+          'ctnosemi', 'ctspace', 'ctodd', 'line4098', 'line4097', 'line8194', 'precrlf')
 
 
 def response_wire(shape, body, idx):
@@ -322,6 +322,11 @@ def response_wire(shape, body, idx):
         assert len(line) == total
         h = b'HTTP/1.1 200 OK\r\n' + line + b'Content-Type: text/x-long\r\nContent-Length: %d\r\n\r\n' % n
         return h, body, 200, 'text/x-long'
+    if shape == 'precrlf':
+        # a stray empty line in front of the status line (left over from a sloppy server's previous answer): whether the
+        # client accepts such an answer is its business (like 'huge'); if it does, the archive still has to be right
+        h = b'\r\nHTTP/1.1 200 OK\r\nContent-Type: image/svg+xml\r\nContent-Length: %d\r\n\r\n' % n
+        return h, body, 200, 'image/svg+xml'
     if shape == 'empty':
         return b'HTTP/1.1 200 OK\r\n\r\n', body, 200, '-'
     if shape == 'long':
@@ -549,7 +554,7 @@ class Exec(object):
                     raise
                 return
             raise RuntimeError('the truncated response was accepted by the HTTP client')
-        if e['shape'] == 'huge':
+        if e['shape'] in ('huge', 'precrlf'):
             # only through the real client; a client that refuses the header leaves no response record (fine)
             try:
                 return self.do_net(rec, url, head, body, e)
